@@ -15,7 +15,8 @@ RULE = ("threads 1-3 x worker_connections 1-5 x keepalive {0,1,2} x schedule of 
         "nr_conns == 0 once all clients have left. non-trivial = >=2 connections overlap and a keep-alive re-arm or expiry happened; "
         "distinct by case hash")
 ASSUMPTIONS = [
-    "handlers run atomically at yield points, and only when their connection holds a complete request or EOF",
+    "handlers run atomically at yield points, and only when their connection holds a complete request or EOF; the one modelled "
+    "cross-thread interleaving is the loop thread overtaking a pool thread that registers a connection without holding the worker's lock",
     "bytecode-level races between pool threads and the main loop (nr_conns -= 1 is not atomic) are outside this simulation",
     "virtual time: keep-alive deadlines are compared with the clock value of the last murder_keepalived() scan",
 ]
@@ -29,6 +30,7 @@ event = st.one_of(
     st.tuples(st.just("finish_partial")),
     st.tuples(st.just("handler"), st.integers(0, 3)),
     st.tuples(st.just("handler"), st.integers(0, 3)),
+    st.tuples(st.just("handler_late_data"), st.integers(0, 3)),
     st.tuples(st.just("time"), st.sampled_from([0.5, 1.0, 3.0])),
     st.tuples(st.just("disconnect"), st.integers(0, 5)),
 )
@@ -39,7 +41,7 @@ scene = st.one_of(
     st.tuples(st.integers(0, 5), st.sampled_from(["send_ka", "send_ka", "send_close", "send_two", "send_partial"]),
               st.sampled_from([0.5, 1.0, 3.0]), st.booleans()).map(
         lambda t: [["connect"], ["time", 0.5], [t[1], t[0]]] + ([["finish_partial"]] if t[1] == "send_partial" else []) +
-                  [["handler", 0], ["time", t[2]]] + ([["send_ka", t[0]], ["handler", 0], ["time", 0.5]] if t[3] else [])),
+                  [["handler_late_data" if t[0] % 2 else "handler", 0], ["time", t[2]]] + ([["send_ka", t[0]], ["handler", 0], ["time", 0.5]] if t[3] else [])),
     st.tuples(st.integers(0, 5)).map(lambda t: [["connect"], ["connect"], ["time", 0.5], ["send_ka", t[0]], ["send_ka", t[0] + 1],
                                                 ["handler", 0], ["handler", 0], ["time", 1.0]]),
     st.tuples(st.integers(0, 5)).map(lambda t: [["disconnect", t[0]], ["time", 0.5]]),
